@@ -59,17 +59,17 @@ const (
 
 // conv is one conversion the workload submitted.
 type conv struct {
-	Dir       string
-	Tx        *types.Transaction
-	Amount    *big.Int // origin units (its or qits)
-	SlipField int      // -1: no slip bytes in the data
-	SlipEff   int64    // the statement's clamp applied
-	Sender    *hnet.QuaiKey
-	Inputs    []hnet.Utxo
-	Recipient common.Address // Qi address (quai->qi) / Quai address (qi->quai)
-	Refund    []byte         // Qi refund address (qi->quai)
-	TxGas     uint64
-	Price     *big.Int
+	Dir         string
+	Tx          *types.Transaction
+	Amount      *big.Int // origin units (its or qits)
+	SlipField   int      // -1: no slip bytes in the data
+	SlipEff     int64    // the statement's clamp applied
+	Sender      *hnet.QuaiKey
+	Inputs      []hnet.Utxo
+	Recipient   common.Address // Qi address (quai->qi) / Quai address (qi->quai)
+	Refund      []byte         // Qi refund address (qi->quai)
+	TxGas       uint64
+	Price       *big.Int
 	ExpectNoEtx bool // below the minimum: must fail at the origin
 	AmountClass string
 	SlipClass   string
@@ -150,15 +150,16 @@ type hist struct {
 	// tracked Quai accounts (conversion senders and Qi->Quai recipients): no other traffic touches them
 	tracked map[common.AddressBytes]string
 	// tracked Qi addresses (recipients, refund addresses)
-	trackedQi map[string]bool
-	snaps     map[common.Hash]utxoSnap
-	wire      map[common.Hash][3][]byte
-	inFlight  map[string]bool
+	trackedQi  map[string]bool
+	snaps      map[common.Hash]utxoSnap
+	wire       map[common.Hash][3][]byte
+	inFlight   map[string]bool
 	senderBusy map[common.AddressBytes]uint64 // sender -> zone height at which its last tx was submitted
-	recipSeq  int
-	pref      float64
-	orders    []int
-	submitErr map[string]int
+	recipSeq   int
+	sincePrime int
+	pref       float64
+	orders     []int
+	submitErr  map[string]int
 }
 
 func (h *hist) wit(extra map[string]any) map[string]any {
@@ -317,8 +318,8 @@ func (h *hist) usableUtxos(minDenom uint8) []hnet.Utxo {
 	height := h.n.Heads()[2].NumberU64(common.ZONE_CTX)
 	var out []hnet.Utxo
 	for _, u := range h.w.OwnedUTXOs(h.n) {
-		if u.Lock != nil && u.Lock.Sign() > 0 && u.Lock.Uint64() > height+1 {
-			continue
+		if u.Lock != nil && u.Lock.Sign() > 0 && u.Lock.Uint64() > height {
+			continue // the pool validates against the current head
 		}
 		if h.inFlight[opKey(u.Hash, u.Index)] || u.Denom < minDenom {
 			continue
@@ -334,25 +335,52 @@ func (h *hist) usableUtxos(minDenom uint8) []hnet.Utxo {
 	return out
 }
 
+// minQiFee is the smallest fee (qits) the origin accepts for a conversion tx
+// with nIn inputs and nOut outputs on top of the current head, and what one
+// qit of fee is worth there (its).
+func (h *hist) minQiFee(nIn, nOut int) (int64, *big.Int) {
+	head := h.n.Heads()[2]
+	gas := uint64(nIn)*params.SloadGas + uint64(nOut)*params.CallValueTransferGas + params.EcrecoverGas + params.QiToQuaiConversionGas
+	base := new(big.Int).Mul(head.BaseFee(), big.NewInt(102)) // the next blocks' base fee drifts a little
+	base.Div(base, big.NewInt(100))
+	wei := new(big.Int).Mul(new(big.Int).SetUint64(gas), base)
+	pt := h.n.Heads()[0]
+	qit := misc.QiToQuai(head, pt.ExchangeRate(), head.Difficulty(), big.NewInt(1))
+	if qit.Sign() == 0 {
+		qit = big.NewInt(1)
+	}
+	f := new(big.Int).Div(wei, qit)
+	return f.Int64() + 1, qit
+}
+
 // qiToQuai spends one wallet output: conversion outputs of the given
 // denominations to one fresh Quai address, change back to wallet keys, the
-// rest is the fee.
-func (h *hist) qiToQuai(convDenoms []uint8, slipField int, feeQits int64, amountClass, scenario string) *conv {
+// rest is the fee. extraGas is the gas the ETX should carry for the refund
+// branch (paid for by fee above the minimum).
+func (h *hist) qiToQuai(convDenoms []uint8, slipField int, extraGas uint64, amountClass, scenario string) *conv {
 	amount := new(big.Int)
+	maxD := uint8(0)
 	for _, d := range convDenoms {
 		amount.Add(amount, types.Denominations[d])
+		if d > maxD {
+			maxD = d
+		}
 	}
-	need := new(big.Int).Add(amount, big.NewInt(feeQits))
+	minFee, qit := h.minQiFee(1, len(convDenoms)+7)
+	extra := new(big.Int).Mul(new(big.Int).SetUint64(extraGas), h.n.Heads()[2].BaseFee())
+	extra.Div(extra, qit)
+	feeTarget := minFee + extra.Int64()
+	need := new(big.Int).Add(amount, big.NewInt(feeTarget))
 	var in *hnet.Utxo
 	for _, u := range h.usableUtxos(0) {
-		if types.Denominations[u.Denom].Cmp(need) >= 0 && u.Denom > convDenoms[0] {
+		if types.Denominations[u.Denom].Cmp(need) >= 0 && u.Denom > maxD {
 			u := u
 			in = &u
 			break
 		}
 	}
 	if in == nil {
-		h.submitErr["qi->quai: no input covering "+need.String()]++
+		h.submitErr["qi->quai: no input covering the amount and fee"]++
 		return nil
 	}
 	recipient := h.freshQuaiRecipient()
@@ -368,11 +396,8 @@ func (h *hist) qiToQuai(convDenoms []uint8, slipField int, feeQits int64, amount
 		return nil
 	}
 	refund := pick()
-	delete(used, string(refund)) // the refund address is not an output; it may also take change
-	used[string(refund)] = true
 	var outs []hnet.QiOut
-	// all conversion outputs must share one To address and outputs may not reuse an address: one output per denomination is not
-	// possible with a single address, so the amount is a single denomination unless the protocol aggregates (it does: same address allowed)
+	// conversion outputs must share one To address (the origin aggregates them into one ETX)
 	for _, d := range convDenoms {
 		outs = append(outs, hnet.QiOut{Denom: d, Addr: recipient.Bytes()})
 	}
@@ -389,14 +414,18 @@ func (h *hist) qiToQuai(convDenoms []uint8, slipField int, feeQits int64, amount
 			nChange++
 		}
 	}
-	data := append(slipBytes(max(slipField, 0)), refund...)
+	sf := slipField
+	if sf < 0 {
+		sf = 0 // the 22-byte data always carries a slip field
+	}
+	data := append(slipBytes(sf), refund...)
 	tx, err := h.w.QiTx([]hnet.Utxo{*in}, outs, data)
 	if err != nil {
 		h.submitErr["qi->quai build: "+trimErr(err)]++
 		return nil
 	}
-	c := &conv{Dir: dirQiToQuai, Tx: tx, Amount: amount, SlipField: max(slipField, 0), SlipEff: clampSlip(max(slipField, 0)), Inputs: []hnet.Utxo{*in}, Recipient: recipient, Refund: refund,
-		AmountClass: amountClass, SlipClass: slipClass(max(slipField, 0)), Scenario: scenario}
+	c := &conv{Dir: dirQiToQuai, Tx: tx, Amount: amount, SlipField: sf, SlipEff: clampSlip(sf), Inputs: []hnet.Utxo{*in}, Recipient: recipient, Refund: refund,
+		AmountClass: amountClass, SlipClass: slipClass(sf), Scenario: scenario}
 	if !h.submit(c, "qi->quai") {
 		delete(h.tracked, recipient.Bytes20())
 		return nil
@@ -404,6 +433,17 @@ func (h *hist) qiToQuai(convDenoms []uint8, slipField int, feeQits int64, amount
 	h.inFlight[opKey(in.Hash, in.Index)] = true
 	h.trackedQi[string(refund)] = true
 	return c
+}
+
+// refundGas picks the gas a Qi->Quai ETX should carry: often too little to
+// refund every denomination, otherwise plenty.
+func (h *hist) refundGas() uint64 {
+	switch h.r.Intn(3) {
+	case 0:
+		return uint64(h.r.Intn(30000))
+	default:
+		return uint64(300000 + h.r.Intn(300000))
+	}
 }
 
 func max(a, b int) int {
@@ -485,19 +525,18 @@ func (h *hist) randomQiToQuai(scenario string) {
 	case amt.Cmp(big.NewInt(1000)) < 0:
 		cls = "dust"
 	}
-	fee := int64(1 + h.r.Intn(3))
-	if h.r.Intn(3) == 0 {
-		fee = int64(1 + h.r.Intn(2000))
-	}
-	if new(big.Int).Add(amt, big.NewInt(fee)).Cmp(types.Denominations[u.Denom]) > 0 {
-		fee = 1
-	}
-	h.qiToQuai(denoms, h.pickSlip(), fee, cls, scenario)
+	h.qiToQuai(denoms, h.pickSlip(), h.refundGas(), cls, scenario)
 }
 
 // step submits nothing itself: mines one block of the wanted order, settles
 // it, records the artefacts.
 func (h *hist) step(want int) bool {
+	// a prime-order seal right after a prime block can take minutes of grinding: keep a few blocks in between
+	for want == 0 && h.sincePrime < 3 {
+		if !h.step(2) {
+			return false
+		}
+	}
 	h.n.Zone().Core.TxPool().VerifQuiesce()
 	t0 := time.Now()
 	mm, err := h.n.Mine(hnet.MineOpts{WantOrder: want, Fill: true})
@@ -511,6 +550,11 @@ func (h *hist) step(want int) bool {
 		return false
 	}
 	h.orders = append(h.orders, mm.Order)
+	if mm.Order == 0 {
+		h.sincePrime = 0
+	} else {
+		h.sincePrime++
+	}
 	h.wire[mm.Hash] = mm.Wire
 	snap := utxoSnap{}
 	for _, u := range hnet.AllUTXOs(h.n.Zone().DB) {
@@ -572,7 +616,7 @@ func (h *hist) submitSpec(s spec, scenario string) {
 		h.quaiToQi(pctOf(h.flow(), s.flowPc), s.slip, 600000, cls, scenario)
 		return
 	}
-	h.qiToQuai(s.denoms, s.slip, int64(1+h.r.Intn(3)), "dust", scenario)
+	h.qiToQuai(s.denoms, s.slip, 400000, "dust", scenario)
 }
 
 // nearBound: a small Qi->Quai conversion (it takes the k-Quai discount while
@@ -588,7 +632,7 @@ func (h *hist) nearBound() {
 	// smallest slip (bp) that still accepts: amt*(10000-s)/10000 <= discounted
 	lost := new(big.Int).Sub(amt, di)
 	s := new(big.Int).Div(new(big.Int).Mul(lost, big.NewInt(10000)), amt).Int64() + 1 + int64(h.r.Intn(3))
-	h.qiToQuai([]uint8{uint8(h.r.Intn(5))}, int(s)+h.r.Intn(8), 1, "dust", "near-bound")
+	h.qiToQuai([]uint8{uint8(h.r.Intn(5))}, int(s)+h.r.Intn(8), 400000, "dust", "near-bound")
 	h.quaiToQi(amt, int(s), 600000, "flow-to-10x", "near-bound")
 }
 
@@ -612,11 +656,11 @@ func (h *hist) period(scenario string, nonPrime int) bool {
 				h.quaiToQi(pctOf(h.flow(), 1500), 8999, 600000, "beyond-10x-flow", scenario)
 				h.quaiToQi(pctOf(h.flow(), 1200), 9001, 600000, "beyond-10x-flow", scenario)
 			} else if i == 1 {
-				h.qiToQuai([]uint8{2}, 0, 1, "dust", scenario)
-				h.qiToQuai([]uint8{6}, 9000, 2, "below-flow", scenario)
+				h.qiToQuai([]uint8{2}, 0, 400000, "dust", scenario)
+				h.qiToQuai([]uint8{6}, 9000, 0, "below-flow", scenario)
 				// a large one with a tight slip: refused
 				if us := h.usableUtxos(9); len(us) > 0 {
-					h.qiToQuai([]uint8{us[len(us)-1].Denom - 1}, 30, 5, "beyond-10x-flow", scenario)
+					h.qiToQuai([]uint8{us[len(us)-1].Denom - 1}, 30, h.refundGas(), "beyond-10x-flow", scenario)
 				}
 			}
 		case "fixed-set":
@@ -666,8 +710,13 @@ func runHistory(t testing.TB, m *mon.M, r *rand.Rand, idx, blocks int) {
 	}
 	h.snaps[n.GenHash] = utxoSnap{}
 	// until the controller has kicked in (prime terminus number >= ControllerKickInBlock) conversions are refused at the origin
-	for n.Heads()[0].NumberU64(common.PRIME_CTX) < params.ControllerKickInBlock {
-		if !h.step(0) {
+	for k := 0; n.Heads()[0].NumberU64(common.PRIME_CTX) < params.ControllerKickInBlock; k++ {
+		// natural orders first: forcing a prime-order seal on the very first blocks can take minutes
+		want := -1
+		if k >= 6 {
+			want = 0
+		}
+		if !h.step(want) {
 			return
 		}
 	}
@@ -736,6 +785,22 @@ func runHistory(t testing.TB, m *mon.M, r *rand.Rand, idx, blocks int) {
 		}
 		m.Sample(map[string]any{"history": idx, "orders": fmt.Sprint(h.orders), "conversions": fmt.Sprint(done), "refused_by_pool": fmt.Sprint(h.submitErr)})
 		dlog(t, "history %d: %v refused %v", idx, done, h.submitErr)
+		for _, c := range h.order {
+			l := fmt.Sprintf("  %s %s amt %s slip %d(%d) gas %d [%s/%s]", c.Scenario, c.Dir, c.Amount, c.SlipField, c.SlipEff, c.TxGas, c.AmountClass, c.SlipClass)
+			if c.origin != nil {
+				l += fmt.Sprintf(" origin@%d status %d gasUsed %d", c.origin.Block.NumberU64(2), c.origin.Status, c.origin.Gas)
+				if c.origin.Etx != nil {
+					l += fmt.Sprintf(" etxgas %d", c.origin.Etx.Gas())
+				}
+			}
+			if c.prime != nil {
+				l += fmt.Sprintf(" prime@%d(P%d) type %d value' %s", c.prime.Block.NumberU64(2), c.prime.Block.NumberU64(0), c.prime.Etx.EtxType(), c.prime.Etx.Value())
+			}
+			if c.dest != nil {
+				l += fmt.Sprintf(" dest@%d status %d", c.dest.Block.NumberU64(2), c.dest.Status)
+			}
+			dlog(t, "%s", l)
+		}
 	}
 	for _, c := range h.order {
 		if c.origin == nil {
